@@ -102,7 +102,7 @@ def run_unit(A, unit, rep, tier):
                 inner = a.args[0] if a.kind == "gen" else a
                 if inner.kind == "data":
                     bad = "returns the live underlying container itself"
-                elif m in DETACHED_API and any(x.kind == "data" for x in inner.walk()):
+                elif m in DETACHED_API and live_container(inner):
                     bad = "returns a view / value derived from the live container instead of detached plain data"
             rep.context(g.label, m in DETACHED_API)
             if bad is None:
@@ -142,6 +142,31 @@ def run_unit(A, unit, rep, tier):
                 rep.fail("C16.d", norm_key("C16.d", eps[m].qualname), f"{eps[m].qualname} no longer removes the element with the built-in operation", [], g.label)
 
 
+def live_container(v):
+    """The value is, or contains, the tree's underlying container itself (not merely elements taken out of it, and
+    not the iterable a comprehension ran over: a comprehension builds a new container)."""
+    if not isinstance(v, Val):
+        return False
+    if v.kind == "data":
+        return True
+    if v.kind in ("elem",):
+        return False
+    if v.kind == "sub" and isinstance(v.args[0], Val) and v.args[0].kind in ("data", "elem", "call"):
+        return False
+    if v.kind == "comp":
+        return live_container(v.args[1])
+    for a in v.args:
+        if isinstance(a, Val) and live_container(a):
+            return True
+        if isinstance(a, tuple):
+            for x in a:
+                if isinstance(x, Val) and live_container(x):
+                    return True
+                if isinstance(x, tuple) and any(isinstance(y, Val) and live_container(y) for y in x):
+                    return True
+    return False
+
+
 def check_to_base(A, rep):
     """(f) _to_base stores an element raw only if it is NOT a synced collection (by a classifier that
     recognises both synced dicts and synced lists), and converts it recursively otherwise."""
@@ -156,6 +181,19 @@ def check_to_base(A, rep):
         rep.context(f"{func.qualname} classifier", True)
         used = [r for r in rs if r.name in ast.unparse(func.node)]
         lits = [n.comparators[0].value for n in ast.walk(func.node) if isinstance(n, ast.Compare) and isinstance(n.comparators[0], ast.Constant) and isinstance(n.comparators[0].value, str)]
+        if not used:
+            # the classification may sit in a private predicate function: read it from the automaton instead
+            b0, g0 = A.graph(cls, "_to_base", "root", "none")
+            names0 = {n["resolver"].args[1] for n in live(g0) if n.kind == "classify" and own(n) and n["resolver"] is not None and n["resolver"].kind == "global"}
+            used = [r for r in rs if r.name in names0]
+            lits = []
+            for n in live(g0):
+                if n.kind == "branch" and own(n):
+                    for x in n["cond"].walk():
+                        if x.kind == "cmp" and x.args[0] == "==":
+                            for a_, b_ in ((x.args[1], x.args[2]), (x.args[2], x.args[1])):
+                                if a_.kind == "const" and isinstance(a_.args[0], str) and any(y.kind == "call" and y.args[0] == "get_type" for y in b_.walk()):
+                                    lits.append(a_.args[0])
         ok = False
         if len(used) == 1 and lits:
             ok = all(tag_of(A.model, used[0], t)[0] == lits[0] for t in ("SyncedDict subclass", "SyncedList subclass")) and \
